@@ -30,6 +30,7 @@ pub mod c03_acknack;
 pub mod c04_writer;
 pub mod c05_frag;
 pub mod c06_hostile;
+pub mod c07_live;
 pub mod c08_readtake;
 pub mod c09_badchange;
 pub mod c10_qos;
@@ -159,6 +160,7 @@ pub fn registry() -> Vec<Property> {
   v.push(c04_writer::property());
   v.push(c05_frag::property());
   v.push(c06_hostile::property());
+  v.push(c07_live::property());
   v.push(c08_readtake::property());
   v.push(c09_badchange::property());
   v.push(c10_qos::property());
